@@ -88,7 +88,16 @@ struct Scen {
 
     bool is_anon(int it) const { return nulls && it % anon_period == anon_phase; }
     long tv(int id, int k) const { return (long)mix(seed ^ (uint64_t)id * 0x9E37u, (uint64_t)k + 1); }
-    void fail(const std::string& key, const std::string& what) { if (fails.fetch_add(1) == 0) { std::lock_guard<std::mutex> l(fm); fail_first = key + "|" + what; } }
+    void fail(const std::string& key, const std::string& what) {
+        int n = fails.fetch_add(1);
+        if (n == 0) { std::lock_guard<std::mutex> l(fm); fail_first = key + "|" + what; }
+        // a broken pipeline may re-run bodies for ever (that is "progress" for the watchdog): give the verdict from inside
+        if (n == 5000 && !returned.load(RLX)) {
+            std::string f; { std::lock_guard<std::mutex> l(fm); f = fail_first; }
+            result().violation(f.substr(0, f.find('|')), f.substr(f.find('|') + 1) + " (and 5000 more failed checks while parallel_pipeline was still running; last: " + key + ": " + what + ")", describe());
+            result().finish_and_exit(3);
+        }
+    }
     std::string modes() const { std::string m; for (int i = 0; i < nf; i++) m += filt[i].mode == filter_mode::parallel ? 'P' : filt[i].ordered ? 'I' : 'O'; return m; }
     std::string types() const { std::string t; for (int x : link) t += type_names[x]; return t; }
     std::string describe() const {
